@@ -1,7 +1,7 @@
 (* C09_Props.v — the property theorems of C09 and nothing else.
    Each is closed by `exact <lemma>` and followed by Print Assumptions. *)
 From Coq Require Import Lia.
-From V Require Import C09_Spec C09_Proofs C09_ProofsW C09_ProofsJ.
+From V Require Import C09_Spec C09_Proofs C09_ProofsW C09_ProofsJ C09_ProofsS.
 Open Scope N_scope.
 
 (* Chunking never matters: for EVERY byte string, read schedule, error-delivery mode and
@@ -100,6 +100,37 @@ Theorem json_last_unterminated_partial : forall scan, scanner_skips_newline scan
   json_all scan (mk_src (json_write_all vs ++ v) sch eg t) = (vs ++ [v], json_end t 0).
 Proof. exact json_last_unterminated_proof. Qed.
 Print Assumptions json_last_unterminated_partial.
+
+(* JSON, EVERY byte string: the result is the schedule-free `json_expected`, provided the scanner
+   never revises a verdict when more bytes arrive (still an oracle hypothesis for encoding/json) *)
+Theorem json_any_sched_partial : forall scan, scanner_stable scan ->
+  forall d sch eg t, json_all scan (mk_src d sch eg t) = json_expected scan t d.
+Proof. exact json_any_sched_proof. Qed.
+Print Assumptions json_any_sched_partial.
+
+(* ... and for the bracket scanner the model is RUN with in the differential check, nothing is assumed *)
+Theorem jscan_stable : scanner_stable jscan.
+Proof. exact jscan_stable_proof. Qed.
+Print Assumptions jscan_stable.
+
+Theorem json_any_sched_jscan : forall d sch eg t,
+  json_all jscan (mk_src d sch eg t) = json_expected jscan t d.
+Proof. exact json_any_sched_jscan_proof. Qed.
+Print Assumptions json_any_sched_jscan.
+
+(* ---------- "rejected before allocating it" ---------- *)
+(* no call of read() - hence no make([]byte, n) and no buffer handed to Read - is ever made for more
+   than max(4, limit) bytes, for every byte string and schedule *)
+Theorem no_oversize_buffer : forall max s, Forall (fun b => b <= N.max 4 max) (all_bufs max s).
+Proof. exact no_oversize_buffer_proof. Qed.
+Print Assumptions no_oversize_buffer.
+
+(* the call that meets an oversize announcement allocates the 4-byte prefix buffer and nothing else *)
+Theorem oversize_no_body_buffer : forall max size rest sch eg t,
+  max < size -> size < 4294967296 ->
+  msg_bufs max (mk_src (be32 size ++ rest) sch eg t) = [4].
+Proof. exact oversize_no_body_buffer_proof. Qed.
+Print Assumptions oversize_no_body_buffer.
 
 (* ---------- the writer side ---------- *)
 (* whatever the point at which the writer fails, the wire carries a prefix of the proper stream *)
@@ -215,3 +246,11 @@ Example ex_json_newline_error_dropped :
 Proof. vm_compute. reflexivity. Qed.
 Example ex_starts_nonspace : starts_nonspace (bs "{}").
 Proof. exists 123, [125]. split; reflexivity. Qed.
+Example ex_bufs :
+  all_bufs 2 (mk_src (write_all [[7; 7]] ++ be32 3 ++ [1; 2; 3]) [3]%nat false TEOF) = [4; 2; 4] /\
+  all_bufs 3 (mk_src (write_all [[7; 7]] ++ be32 3) [3]%nat false TEOF) = [4; 2; 4; 3].
+Proof. vm_compute. auto. Qed.
+Example ex_json_expected_garbage :
+  json_all jscan (mk_src (bs "{} ]") [1; 1; 1]%nat false TEOF) = ([bs "{}"], JFSyntax) /\
+  json_expected jscan TEOF (bs "{} ]") = ([bs "{}"], JFSyntax).
+Proof. vm_compute. auto. Qed.
